@@ -12,18 +12,20 @@ from vlib.py2coq import Unsupported
 LEVEL = "proof"
 META = {
     "category": "proof",
-    "text": "Coq theorems: for every integer type, operator (+ - * // % ** << >> & | ^ ~ unary-, comparisons, and/or/not) "
-            "and the builtins min/max/abs/shift/uint256_addmod/uint256_mulmod/pow_mod256/as_wei_value, whenever the "
-            "compile-time fold (Operator._op / _try_fold bodies, regenerated from /repo into Gallina on every run) yields a "
-            "value that passes the literal range check, the exact-or-revert run-time specification yields the same value; "
-            "hence never two different values. The specification and the fold model are tied to the real compiler by "
-            "paired probes (literal operands vs calldata operands) executed on an EVM under the configuration set, and by a "
-            "differential of the real ConstantFolder against the model evaluated inside Coq.",
+    "text": "Coq theorems: for every integer type, operator (+ - * // % ** << >> & | ^ ~ unary-, comparisons, and/or/not), the "
+            "builtins min/max/abs/shift/uint256_addmod/uint256_mulmod/pow_mod256/as_wei_value, literal conversion "
+            "(int/decimal/bytesM/bool -> integer types, int -> decimal), list-literal indexing, min_value/max_value and uint2str: "
+            "whenever the compile-time fold (Operator._op / _try_fold bodies / vyper.utils helpers, regenerated from /repo into "
+            "Gallina on every run; AST- and Decimal-based code as a hand model) yields a value that passes the literal range "
+            "check, the exact-or-revert run-time specification yields the same value; hence never two different values. The "
+            "specification and the fold model are tied to the real compiler by paired probes (literal operands / named constants / "
+            "nested and cross-module constants vs calldata operands) executed on an EVM under the configuration set, and by a "
+            "differential of the real ConstantFolder and _literal_int/_literal_decimal against the model evaluated inside Coq.",
     "level_note": "Trusted: Coq kernel + vm_compute; py2coq translator and the C17 method puller (integer instantiation of "
-                  "isinstance tests; float/type-lattice guards become universally quantified oracles); ArithSpec.v is a "
-                  "hand-written specification tied to compiled code only by sampling (paired probes); decimal operators, "
-                  "floor/ceil are a hand model; unsafe_*, uint2str, len, keccak256/sha256, convert, min_value/max_value/"
-                  "epsilon are covered by paired probes only (no theorem).",
+                  "isinstance tests; float/type-lattice guards become universally quantified oracles); ArithSpec.v / ConvSpec.v are "
+                  "hand-written specifications tied to compiled code only by sampling (paired probes); decimal operators, "
+                  "floor/ceil, literal conversion, list indexing and uint2str are hand models tied by differential; hashes are "
+                  "relative to an oracle shared by both sides; unsafe_*, len, epsilon are covered by paired probes only.",
     "technique": "Coq proof over py2coq-translated source + paired-probe differential on pyrevm",
 }
 
